@@ -475,7 +475,11 @@ func ruleStateTrackerCommit(c *core.Ctx) {
 	key := declKey(d)
 	begins := findBegins(info, d.Decl.Body, "BeginTX")
 	if len(begins) != 1 {
-		c.Fail("EVT/state-tracker-commit", key+":begin", pos(c, d.Decl), "handleState no longer opens exactly one transaction through BeginTX")
+		if len(scopeCalls(fnScope(c, d, 1), named("BeginTX"))) == 0 {
+			c.Fail("EVT/state-tracker-commit", key+":begin", pos(c, d.Decl), "handleState no longer opens a transaction through BeginTX")
+		} else {
+			c.Unrecognised("EVT/state-tracker-commit", key+":begin", pos(c, d.Decl), "handleState does not open exactly one transaction through BeginTX in its own body")
+		}
 		return
 	}
 	tx := begins[0].TxVar
@@ -504,7 +508,7 @@ func ruleStateTrackerCommit(c *core.Ctx) {
 					locked := info.Defs[fl.Type.Params.List[0].Names[0]]
 					ast.Inspect(fl.Body, func(x ast.Node) bool {
 						if cc, ok := x.(*ast.CallExpr); ok {
-							if fid, ok := cc.Fun.(*ast.Ident); ok && fid.Name == "fn" && len(cc.Args) == 1 {
+							if isParamFuncCall(d, cc) && len(cc.Args) == 1 {
 								if a, ok := cc.Args[0].(*ast.Ident); ok && info.Uses[a] == locked {
 									okLock = true
 								}
@@ -526,8 +530,10 @@ func ruleStateTrackerCommit(c *core.Ctx) {
 		}
 		notDry, afterCommit := false, false
 		for _, f := range astx.FactsAt(info, d.Decl.Body, as.Pos()) {
-			if id, ok := ast.Unparen(f.Cond).(*ast.Ident); ok && id.Name == "dryRun" && !f.Positive {
-				notDry = true
+			if id, ok := ast.Unparen(f.Cond).(*ast.Ident); ok && !f.Positive && isParamObj(d, info.ObjectOf(id)) {
+				if b, isB := info.TypeOf(id).Underlying().(*types.Basic); isB && b.Kind() == types.Bool {
+					notDry = true
+				}
 			}
 			if be, ok := ast.Unparen(f.Cond).(*ast.BinaryExpr); ok && be.Op == token.NEQ && !f.Positive {
 				afterCommit = true
